@@ -222,8 +222,8 @@ def _call(case, backend):
         r = dijkstra_edges(n, es, case["s"], target=case["t"], **kw)
         sol, obj = _sssp(case, r)
     elif fn in ("bfs_edges", "dfs_edges"):
-        import solvor.bfs as B
-        r = getattr(B, fn)(n, es, case["s"], target=case["t"], **kw)
+        import importlib
+        r = getattr(importlib.import_module("solvor.bfs"), fn)(n, es, case["s"], target=case["t"], **kw)
         if r.solution is None:
             sol = None
         else:
